@@ -14,7 +14,7 @@ ALL_KINDS = {'"mu"', '"nf2"', '"lumi"', '"normsysA"', '"normsysB"', '"histosys"'
 
 # ImplLumiAbs / ImplCacheStale describe the tree as read (DESIGN section 6 rows 3 and 4); flip them when the
 # implementation-shaped layer has to follow a repaired tree (until then a repaired tree shows up as MODEL-DRIFT).
-IMPL = dict(ImplLumiAbs=True, ImplCacheStale=True)
+IMPL = dict(ImplLumiAbs=False, ImplCacheStale=False)
 
 TIERS = {
     "quick": dict(
